@@ -415,6 +415,11 @@ _BULK_FUNCS = (sorted, sum, min, max, any, all)
 _BULK_SELF_METHODS = {"copy", "clear", "sort", "reverse", "index", "count", "remove", "insert",
                       "__contains__", "__copy__"}
 _CONTAINERS = (dict, list, set, frozenset, tuple)
+# str methods that scan or copy the whole receiver (find/index/startswith take a
+# start position and stop early, strip only looks at the ends: not counted)
+_BULK_STR_METHODS = {"partition", "rpartition", "split", "rsplit", "splitlines", "replace", "lower",
+                     "upper", "casefold", "swapcase", "title", "capitalize", "encode", "translate",
+                     "expandtabs", "center", "ljust", "rjust", "zfill", "count"}
 
 
 def _bulk_weight(callable_, arg0, missing):
@@ -422,8 +427,8 @@ def _bulk_weight(callable_, arg0, missing):
     lets us see.  The event carries the callable and the first argument only,
     and for `obj.method(x)` that first argument is `obj`: so constructors and
     sorted/sum/min/max/any/all weigh len(argument), receiver-sized methods
-    (copy, clear, sort, reverse, index, count, remove, insert) weigh
-    len(receiver), and d.update(x) / l.extend(x) / s.union(x), whose cost is
+    (copy, clear, sort, reverse, index, count, remove, insert; for str:
+    partition, split, replace, lower, ...) weigh len(receiver), and d.update(x) / l.extend(x) / s.union(x), whose cost is
     len(x), cannot be weighed (x is not in the event; the copy that produced x
     is counted where it was made).  None: not a bulk operation - the call site
     is switched off."""
@@ -432,6 +437,8 @@ def _bulk_weight(callable_, arg0, missing):
             return 0
         return len(arg0) if isinstance(arg0, _CONTAINERS) else 0
     name = getattr(callable_, "__name__", None)
+    if name in _BULK_STR_METHODS and getattr(callable_, "__objclass__", None) is str:
+        return len(arg0) if isinstance(arg0, str) else 0
     if name in _BULK_SELF_METHODS:
         if getattr(callable_, "__objclass__", None) in _CONTAINERS:  # descriptor: arg0 is the receiver
             return len(arg0) if (arg0 is not missing and isinstance(arg0, _CONTAINERS)) else 0
@@ -510,6 +517,68 @@ def measure_bulk(text):
         if gc_was:
             gc.enable()
     return out, total[0], by
+
+
+def measure_lines(text):
+    """-> (outcome, {parser function: source lines executed}).  sys.monitoring
+    LINE events local to the code objects of the three parser files: the one
+    deterministic counter that sees a `while` loop that calls nothing (walking
+    a declarator chain, a scope stack).  Several times dearer than the call
+    counters: used for the single-construct families only."""
+    import gc
+
+    from pycparser.c_parser import CParser, ParseError
+
+    measure_both("int x;")  # warm-up, recursion limit
+    if not hasattr(sys, "monitoring"):
+        return "unsupported", {}
+    mon = sys.monitoring
+    kind = _KIND
+    DISABLE = mon.DISABLE
+    tool = 4 if mon.get_tool(4) is None else 3
+    seen = set()
+    lines = {}
+
+    def on_start(code, offset):
+        k = kind.get(code)
+        if k is None:
+            k = kind[code] = _code_kind(code)
+        if k == 1 and code not in seen:
+            seen.add(code)
+            mon.set_local_events(tool, code, mon.events.LINE)
+        return DISABLE
+
+    def on_line(code, line):
+        nm = code.co_name
+        lines[nm] = lines.get(nm, 0) + 1
+
+    parser = CParser()
+    out = "ok"
+    gc_was = gc.isenabled()
+    gc.disable()
+    mon.use_tool_id(tool, "verif-family-sweep")
+    try:
+        mon.register_callback(tool, mon.events.PY_START, on_start)
+        mon.register_callback(tool, mon.events.LINE, on_line)
+        mon.restart_events()
+        mon.set_events(tool, mon.events.PY_START)
+        try:
+            parser.parse(text)
+        except ParseError as e:
+            out = "perr:" + str(e)[:100]
+        except RecursionError:
+            out = "rec"
+        finally:
+            mon.set_events(tool, 0)
+            for code in seen:
+                mon.set_local_events(tool, code, 0)
+            mon.register_callback(tool, mon.events.PY_START, None)
+            mon.register_callback(tool, mon.events.LINE, None)
+    finally:
+        mon.free_tool_id(tool)
+        if gc_was:
+            gc.enable()
+    return out, lines
 
 
 def steps(text):
@@ -692,6 +761,13 @@ REPEATABLE = {
     "pointer_stars": ("int ", lambda i: "*", "", "p;"),
     "pointer_qualifiers": ("int * ", lambda i: "const", " ", " p;"),
     "array_dims": ("int a", lambda i: "[2]", "", ";"),
+    "array_dims_on_paren_declarator": ("int (*a)", lambda i: "[2]", "", ";"),
+    "array_dims_with_bounds_expr": ("int a", lambda i: f"[{i} + 1]", "", ";"),
+    "func_suffixes": ("int f", lambda i: "(int)", "", ";"),
+    "func_suffixes_on_paren_declarator": ("int (*f)", lambda i: "(int, char)", "", ";"),
+    "mixed_suffixes_on_paren_declarator": ("int (*f)", lambda i: ("(int)", "[2]")[i % 2], "", ";"),
+    "abstract_array_dims": ("int v = sizeof(int", lambda i: "[2]", "", ");"),
+    "param_array_dims": ("void f(int a", lambda i: "[2]", "", ");"),
     "qualifier_run": ("", lambda i: "const volatile", " ", " int x;"),
     "alignas_run": ("", lambda i: "_Alignas(8)", " ", " int x;"),
     "offsetof_chain": ("int v = offsetof(struct s, m", lambda i: ".m[1]", "", ");"),
@@ -775,7 +851,8 @@ TIMED_REPEAT_SIZES_LONG_ITEMS = (256, 1024, 4096)
 TIMED_REPEAT_QUICK = [
     "string_concat", "wstring_concat", "string_concat_long_pieces",
     "string_concat_mixed_prefix_long_pieces", "string_concat_as_call_argument",
-    "array_dims", "pointer_stars", "pointer_qualifiers", "qualifier_run", "alignas_run",
+    "array_dims", "array_dims_on_paren_declarator", "func_suffixes_on_paren_declarator",
+    "mixed_suffixes_on_paren_declarator", "abstract_array_dims", "pointer_stars", "pointer_qualifiers", "qualifier_run", "alignas_run",
     "designator_chain", "offsetof_chain", "subscript_chain", "member_chain", "call_chain",
     "postinc_chain", "binary_chain", "binary_mixed_chain", "comma_chain", "init_items",
     "init_items_designated", "call_args", "params", "knr_identifiers", "enumerators",
